@@ -4,7 +4,7 @@ from specs.base import *
 from specs.scoring import *
 
 
-@contract("utils.py", "score_profile_from_ballot_scores", props=("C05",), when=("Profile", "Bool"))
+@contract("utils.py", "score_profile_from_ballot_scores", props=("C05",), when=("Profile",))
 class score_from_ballot_scores:
     """exact mode (to_float=False): every listed candidate's total is the sum over the ballots of weight x the score the ballot
     gives it (0 if none); the result's keys are exactly the profile's candidates; TypeError exactly when some ballot has no
@@ -42,7 +42,7 @@ class score_from_ballot_scores:
         return all_scored_prefix(profile.ballots, _k + 1, len(profile.ballots))
 
 
-@contract("utils.py", "mentions", props=("C04",), when=("Profile", "Bool"))
+@contract("utils.py", "mentions", props=("C04",), when=("Profile",))
 class mentions_c:
     """exact mode: every listed candidate's total is the sum over the ballots of the ballot's weight for each position that lists
     it; keys are exactly the profile's candidates; TypeError exactly when some ballot has no (non-empty) ranking.  Requires every
@@ -131,7 +131,7 @@ class add_missing_cands_c:
         return all_ranked_prefix(profile.ballots, _k + 1, len(profile.ballots))
 
 
-@contract("utils.py", "score_profile_from_rankings", props=("C04",), when=("Profile", "Seq", "Bool"), unfold=3, reveal=("pts", "rk_ok"))
+@contract("utils.py", "score_profile_from_rankings", props=("C04",), when=("Profile", "Seq"), unfold=3, reveal=("pts", "rk_ok"))
 class score_from_rankings:
     """exact mode (to_float=False, vector of exact numbers): ValueError iff the vector has a negative entry or increases; TypeError
     iff some ballot has no (non-empty) ranking; otherwise the keys are the profile's candidates and every candidate's score is the
